@@ -456,10 +456,27 @@ def corr_getlines(pid):
     return run
 
 
+def corr_pipeline_oddchars(pid):
+    """Whole-pipeline correspondence on subprocess and Python lines with one character that is neither a word
+    character nor plain whitespace glued into / next to a word: what the token source drops and what it keeps
+    (`is_blank` = the model's `isBlank`) decides between SyntaxError and a changed word list."""
+    def run(rep, tier):
+        from harness import corr
+
+        odd = ["\u200b", "\u00ad", "\ufeff", "\u2060", "\x01", "\x7f", "\x1b", "\u00a0", "\u3000", "\u2028", "\u0085", "\x0c", "\u200e", "\u061c", "\u180e", "\x1f", "\u2003", "\u00b7", "\u20ac"]
+        forms = ["$(echo pre{c}post tail)\n", "$[x {c}y]\n", "$(a{c} b)\n", "$(a {c} b)\n", "x = $(ls {c}){c}\n", "x = 1{c}+ 2\n", "x{c}y = 3\n", "f(a,{c}b)\n", "if a:{c}\n    b\n", "$(echo @(x){c}y)\n", "ls -l{c}a\n"]
+        srcs = [f.replace("{c}", c) for c in odd for f in forms]
+        bad = corr.run_pipeline_correspondence(rep, corr.pipeline_cases(srcs), name="pipeline (odd characters next to words)")
+        for b in bad[:3]:
+            rep.extra.setdefault("correspondence_disagreements", []).append(b)
+
+    return run
+
+
 CORR = {
     "C07": [corr_helpers("C07", ("macro", "withmacro", "procmacro"))],
     "C11": [corr_helpers("C11", ("builderr",))],
-    "C06": [corr_c06],
+    "C06": [corr_c06, corr_pipeline_oddchars("C06")],
     "C01": [corr_peg("C01", xonsh=False), corr_helpers("C01", ("makeargs", "span", "concat"))],
     "C04": [corr_helpers("C04", ("span", "concat"))],
     "C02": [corr_peg("C02")],
